@@ -261,7 +261,7 @@ const smtPrelude = `(set-option :produce-models true)
 (define-fun subw ((a Int) (b Int) (lo Int) (hi Int)) Int (let ((s (- a b))) (ite (>= s hi) (- s (- hi lo)) (ite (< s lo) (+ s (- hi lo)) s))))
 (define-fun wrapw ((x Int) (lo Int) (hi Int)) Int (+ lo (mod (- x lo) (- hi lo))))
 (define-fun tdiv ((a Int) (b Int)) Int (ite (>= a 0) (ite (> b 0) (div a b) (- (div a (- b)))) (ite (> b 0) (- (div (- a) b)) (div (- a) (- b)))))
-(define-fun trem ((a Int) (b Int)) Int (- a (* b (tdiv a b))))
+(define-fun trem ((a Int) (b Int)) Int (ite (>= a 0) (mod a (ite (> b 0) b (- b))) (- (mod (- a) (ite (> b 0) b (- b))))))
 (define-fun imin ((a Int) (b Int)) Int (ite (<= a b) a b))
 (define-fun imax ((a Int) (b Int)) Int (ite (>= a b) a b))
 (declare-fun band (Int Int) Int)
